@@ -55,6 +55,16 @@ def _cases_for_doc(doc, rng, dense):
                 i = rng.randrange(len(loc))
                 mut = loc[:i] + [tok] + loc[i + 1:]
                 yield {"mode": not mode, "text": rfc6901_spell(mut), "doc": doc, "default": None, "has_default": False}
+                # a pointer that fails BEFORE its last token, with a default that is itself a container holding the remaining
+                # tokens (or the document itself): the default is returned whole, nothing is looked up inside it
+                rest = [str(t) for t in mut[i + 1:]] + [str(t) for t in loc]
+                inside = "INSIDE"
+                for t in reversed(rest[:3]):
+                    inside = {t: inside, "0": inside}
+                for dflt in (inside, ["IN0", ["IN00"], {"0": "IN1"}], doc if isinstance(doc, (dict, list)) else [doc]):
+                    if rng.random() < (1.0 if dense else 0.4):
+                        yield {"mode": not mode, "text": rfc6901_spell(mut + ["0"]), "doc": doc, "default": dflt, "has_default": True}
+                        yield {"mode": not mode, "text": rfc6901_spell(mut), "doc": doc, "default": dflt, "has_default": True}
         if isinstance(node, list):
             for tok in (str(len(node)), str(len(node) + 1), str(max(len(node) - 1, 0))):
                 yield {"mode": True, "text": rfc6901_spell(loc + [tok]), "doc": doc, "default": None, "has_default": False}
@@ -121,7 +131,11 @@ def impl(case):
     except Exception as e:  # noqa: BLE001
         out["exists"] = ["err", exc_name(e)]
     if case["has_default"]:
-        out["default"] = _outcome(doc, lambda: p.resolve(doc, default=case["default"]))
+        dflt = deep(case["default"])
+        out["default"] = _outcome(doc, lambda: p.resolve(doc, default=dflt))
+        if out["default"][0] == "value" and out["default"][2] == "not-in-document" and out["default"][1] == SX.canon(case["default"]):
+            out["default"][2] = None          # the default itself came back (a container default is not a node of the document)
+        out["default_unchanged"] = SX.canon(dflt) == SX.canon(case["default"])
     out["doc_unchanged"] = SX.canon(doc) == SX.canon(case["doc"])
     return out
 
@@ -151,6 +165,7 @@ def decode(sx, case):
         model["exists"] = _res(m[4], lambda b: ["ok", b == "true"]) if m[4][0] == "ok" else ["err", m[4][1]]
         if case["has_default"]:
             model["default"] = _res(m[5], _rv)
+            model["default_unchanged"] = True
         model["doc_unchanged"] = True
     syntax = s[0] == "true"
     ev = s[1]
@@ -167,6 +182,7 @@ def decode(sx, case):
         exists = False
     spec = {"resolve": outcome, "resolve_fn": outcome, "exists": exists, "doc_unchanged": True}
     if case["has_default"]:
+        spec["default_unchanged"] = True
         spec["default"] = outcome if exists else ["value", SX.canon(case["default"]), None]
     in_domain = (syntax and mode_ok and flags["wf"] and flags["within-limits"] and not unsupported
                  and (ev != "none" or flags["outside-ext"]))
@@ -189,6 +205,7 @@ def project(case, res, dec=None):
     out = {"resolve": _proj_outcome(res["resolve"]), "resolve_fn": _proj_outcome(res["resolve_fn"]),
            "exists": res["exists"][1] if res["exists"][0] == "ok" else res["exists"], "doc_unchanged": res["doc_unchanged"]}
     if case["has_default"]:
+        out["default_unchanged"] = res.get("default_unchanged")
         out["default"] = _proj_outcome(res["default"])
     return out
 
